@@ -364,6 +364,31 @@ def overflow_texts(rng, n):
         yield t, rng.random() < 0.3
 
 
+def near_one(rng, e, allow_neg=True):
+    k = max(2, min(52, abs(e).bit_length() - 1 + rng.choice([-2, -1, 0, 1, 2])))
+    v = 1.0 + rng.choice([-1.0, 1.0]) * 2.0 ** -k
+    return -v if allow_neg and rng.random() < 0.25 else v
+
+
+def bigexp_cases(rng, n_random):
+    es = [2 ** 31 - 1, 2 ** 31, 2 ** 31 + 1, 2 ** 32, 3000000000, 2 ** 40, 2 ** 33 + 1,
+          -(2 ** 31 - 1), -(2 ** 31), -(2 ** 31 + 1), -3000000000, -(2 ** 32), -(2 ** 40), -(2 ** 35 + 1)]
+    es += [rng.choice([-1, 1]) * rng.randint(2 ** 31, 2 ** 40) for _ in range(n_random)]
+    for i, e in enumerate(es):
+        x = near_one(rng, e)
+        et = ('-' if e < 0 else '') + str(abs(e)) + rng.choice(['', '', '.', '.0'])
+        if i % 3 == 0:
+            t, binds = 'x^' + et, [['x', x]]
+        elif i % 3 == 1:
+            t, binds = rng.choice(['3', '2.5', '-1/4', '-']) + 'x^' + et + '+' + str(rng.randint(1, 9)), [['x', x]]
+        else:
+            e2 = rng.choice([-1, 1]) * rng.randint(2 ** 31, 2 ** 40)
+            y = near_one(rng, e2)
+            t = rng.choice(['', '7', '.5']) + 'y^' + ('-' if e2 < 0 else '') + str(abs(e2)) + 'x^' + et + '-x^2'
+            binds = [['x', x], ['y', y]]
+        yield t, binds, x
+
+
 def univariate_src(rng):
     v = rng.choice('xyztabXQ')
     src = []
@@ -441,6 +466,11 @@ def gen(rng, tier):
             binds = [[l, 1.5] for l in sorted(set(c for c in t if c in ASCII_LETTERS))]
             line = 'eval %s %s %d %s' % (cps(t), f2hex(2.0), len(binds), ' '.join(cps(l) + ' ' + f2hex(v) for l, v in binds))
             yield Case(line.strip(), 'overflow_eval', {'src': None, 'text': t, 'x': 2.0, 'binds': binds, 'nonum': True})
+    # whole exponents beyond the range of i32 (a `powi(pow as i32)` shortcut saturates there): x = +-(1 +- 2^-k)
+    # with k ~ log2|e| +- 2, so that x^e ~ exp(+-e 2^-k) is finite and far from 0 and 1
+    for t, binds, x in bigexp_cases(rng, 10 if tier == 'quick' else 300):
+        line = 'eval %s %s %d %s' % (cps(t), f2hex(x), len(binds), ' '.join(cps(l) + ' ' + f2hex(v) for l, v in binds))
+        yield Case(line.strip(), 'eval_bigexp', {'src': None, 'text': t, 'x': x, 'binds': binds, 'skip_model': True})
     # agreement with the univariate parser
     for _ in range(n_agree):
         src = univariate_src(rng)
@@ -564,15 +594,22 @@ def exact_terms(src, vals):
             if e.denominator == 1:
                 if x == 0 and e < 0:
                     return None
-                p = Fraction(x) ** int(e)
-                pv = Decimal(p.numerator) / Decimal(p.denominator)
+                if abs(e) <= 4096:
+                    p = Fraction(x) ** int(e)
+                    pv = Decimal(p.numerator) / Decimal(p.denominator)
+                else:               # huge whole exponent: exp(e ln x) at 60 digits (x is an exact binary fraction)
+                    pv = Decimal(x) ** Decimal(int(e))
             else:
                 if x <= 0:
                     return None
                 pv = Decimal(x) ** (Decimal(e.numerator) / Decimal(e.denominator))
             v *= pv
             lnx = abs(math.log(abs(x))) if x != 0 else 0.0
-            budget += 6 + 4 * (len(es) + 1) * (float(abs(e)) + sum(float(abs(ev)) for ev, _ in es) + 1) * (lnx + 1)
+            if len(es) == 1 and e.denominator == 1 and abs(e) >= 2 ** 20 and Fraction(float(e)) == e \
+                    and (es[0][1] is None or es[0][1][1][0] == 'd'):
+                budget += 8         # a whole exponent stored exactly: only libm's own error (< 1 ulp) remains
+            else:
+                budget += 6 + 4 * (len(es) + 1) * (float(abs(e)) + sum(float(abs(ev)) for ev, _ in es) + 1) * (lnx + 1)
         out.append((v, budget))
     return out
 
@@ -584,7 +621,7 @@ def eval_expect(src, vals):
     if (need_pos and any(v <= 0 for v in used)) or (need_nonzero and any(v == 0 for v in used)):
         return None
     with localcontext() as ctx:
-        ctx.prec = 50
+        ctx.prec = 60
         ts = exact_terms(src, vals)
         if ts is None:
             return None
@@ -740,6 +777,10 @@ def compare(case, impl, model):
         if expected_src(case) is None:
             return impl == model
         mv, uv = eval_views(case)
+        if case.meta.get('skip_model'):
+            # |exponent| >= 2^31: Num.float_powf does not model libm pow there; only the error kinds are compared
+            return all((a == b) if (a.startswith('err') or b.startswith('err') or 'panic' in (a, b)) else True
+                       for a, b in ((ti[2], tm[2]), (ti[4], tm[4])))
         return tok_match(ti[2], tm[2], mv) and tok_match(ti[4], tm[4], uv)
     if cmd == 'agree':
         ti, tm = impl.split(), model.split()
@@ -776,3 +817,51 @@ def describe(case):
         if k in m:
             d[k] = m[k]
     return d
+
+
+# ---- extraction cross-check: the same cases evaluated inside Coq by vm_compute
+from tools import xenc
+COQ_IMPORTS = 'Base.XEnc Base.Str Model.Poly Model.Parse'
+XCHECK_N = 200
+
+
+def coq_term(case):
+    # crc thinning below XCHECK_N so that every eligible case is taken, whatever its position in the stream
+    if not xenc.keep(case, 2 if case.cls in ('fixed', 'zero_denominator') else 40):
+        return None
+    t = xenc.Toks(case.line)
+    cmd = t.word()
+    s = t.cpstr()
+    pi = '(@parse_inter float FNum uclass_tab %s)' % xenc.cq_str(s)
+    if cmd == 'parse':
+        return 'enc_res %s %s' % (xenc.CQ_ENC_IPOLY, pi)
+    if cmd == 'eval':
+        x = t.fl()
+        nb = t.int()
+        env = []
+        for _ in range(nb):
+            nm = t.cpstr()
+            env.append('(%s, %s%%float)' % (xenc.cq_str(nm), xenc.coq_float(t.fl())))
+        return ('enc_res (fun p => enc_res enc_float (@i_eval_multivariate float FNum p [%s]) ++ '
+                'enc_res enc_float (@i_eval_univariate float FNum p %s%%float)) %s' % ('; '.join(env), xenc.coq_float(x), pi))
+    if cmd == 'agree':
+        if xenc.big_exponent(s):
+            return None
+        x = xenc.coq_float(t.fl())
+        return ('enc_res enc_float (res_map (fun p => @eval_simple float FNum p %s%%float) (@parse_simple float FNum uclass_tab %s)) ++ '
+                'enc_res enc_float (bind %s (fun p => @i_eval_univariate float FNum p %s%%float))' % (x, xenc.cq_str(s), pi, x))
+    return None
+
+
+def encode_result(case, model_line):
+    cmd = case.line.split(' ', 1)[0]
+    if cmd == 'parse':
+        return xenc.enc_line(model_line, xenc.enc_ipoly_toks)
+    if cmd == 'eval':
+        def pay(t):
+            assert t[0] == 'mv' and t[2] == 'uv' and len(t) == 4, t
+            return xenc.res_tok(t[1]) + xenc.res_tok(t[3])
+        return xenc.enc_line(model_line, pay)
+    t = model_line.split()
+    assert t[0] == 's' and t[2] == 'i' and len(t) == 4, t
+    return xenc.res_tok(t[1]) + xenc.res_tok(t[3])
